@@ -255,7 +255,11 @@ def sub_judge(line, obs):
         if op[0] == "attach":
             got[op[1]] = b""
         elif op[0] in ("wmode", "wplan"):
-            touched.add(op[1])
+            # only a script that can FAIL a write (error, Ok(0)) excuses a peer from being up to date when the call returns:
+            # partial writes and transient back-pressure are waited out by subscribe/unsubscribe
+            spec = op[2]
+            if "broken" in spec or "zero" in spec or "e:" in spec or "z" in spec.split(","):
+                touched.add(op[1])
         elif op[0] in ("sub", "unsub"):
             tp = W.untok(op[1])
             if op[0] == "sub" and tp not in cur:
@@ -274,7 +278,7 @@ def sub_judge(line, obs):
             if not upd.startswith(got[op[1]]):
                 return "peer %s was sent something that is not a prefix of the updates of the socket's set" % op[1]
             if op[1] not in touched and got[op[1]] != upd:
-                return "peer %s, whose connection accepts every write, has not been told every change of the set" % op[1]
+                return "peer %s, whose connection never fails a write (it may be slow), has not been told every change of the set when the call returned" % op[1]
     return None
 
 
